@@ -25,6 +25,7 @@ THEOREMS = {
                               'RsomeV.C02Conic.coneDual_strong', 'RsomeV.C02Conic.compact_layout_needs_free_tails'],
     'RsomeV.Props.C01': ['RsomeV.C01.rc_sound'],
     'RsomeV.Props.C08': ['RsomeV.C08.lp_dual_strong'],
+    'RsomeV.Props.C08Exp': ['RsomeV.C08Exp.hgap_exp_slater', 'RsomeV.C08Exp.rc_exact_exp_slater', 'RsomeV.C08Exp.cone_dual_strong_exp'],
 }
 RULE = c01.RULE + "; for the exactness search every model is also solved as a semi-infinite LP by cutting planes"
 TRUSTED = c01.TRUSTED + ["scipy/HiGHS for the cutting-plane master problems"]
